@@ -293,7 +293,7 @@ def check_data_gate(ctx):
     f = _method(repo, "HsmsProtocol", "_on_connection_message_received")
     ctx.touch(f)
     q = f.qualname
-    fn = f.node
+    fn = inline.expanded(ctx, f, keep={"send_message", "send_reject_rsp", "__handle_hsms_requests", "_HsmsProtocol__handle_hsms_requests"})
     cfg = cfg_of(fn)
     param = fn.args.args[2].arg
     # control/data split
@@ -313,8 +313,9 @@ def check_data_gate(ctx):
         return
     G = gates[0]
     t = G.ast
-    ctx.require(isinstance(t, ast.Compare) and len(t.ops) == 1 and isinstance(t.ops[0], (ast.Eq, ast.NotEq, ast.Is, ast.IsNot)), f"{q}: gate test `{norm(t)}` has an unknown shape")
-    selected_label = "true" if isinstance(t.ops[0], (ast.Eq, ast.Is)) else "false"
+    gc = cnd.canon(t, True)
+    ctx.require(len(gc) == 1 and next(iter(gc))[0] == "self._connection_state.current == ConnectionState.CONNECTED_SELECTED", f"{q}: gate test `{norm(t)}` has an unknown shape")
+    selected_label = "true" if next(iter(gc))[1] else "false"
     sel = rules.branch_marker(G, selected_label)
     notsel = rules.branch_marker(G, "false" if selected_label == "true" else "true")
     bad = [d for d in deliveries if not cfg.dominates(sel, d)]
